@@ -30,13 +30,13 @@ type c12Patch struct {
 }
 
 type c12Case struct {
-	Len      int        `json:"len"`
-	Patches  []c12Patch `json:"patches"`
-	Order    []int      `json:"add_order"`
-	In       []byte     `json:"-"`
-	Shuffled bool       `json:"shuffled"`
-	SharedBuf bool      `json:"blobs_share_one_buffer"`
-	Layout    []int     `json:"buffer_layout"`
+	Len       int        `json:"len"`
+	Patches   []c12Patch `json:"patches"`
+	Order     []int      `json:"add_order"`
+	In        []byte     `json:"-"`
+	Shuffled  bool       `json:"shuffled"`
+	SharedBuf bool       `json:"blobs_share_one_buffer"`
+	Layout    []int      `json:"buffer_layout"`
 }
 
 // c12Gen draws a file and a set of pairwise-disjoint patches (touching
@@ -510,6 +510,13 @@ func c12Huge(r *core.Run) {
 	split := t.Chance(1, 2, "split") // two touching Adds whose combined old size crosses 2^32-1
 	inP := filepath.Join(root, "in.dat")
 	dest := filepath.Join(root, "out.dat")
+	// onto the input's own path (opened read-write, as the client does then):
+	// whether that is done in place or by rewriting is relic's business, the
+	// result is the same
+	samePath := t.Chance(1, 2, "huge-same-path")
+	if samePath {
+		dest = inP
+	}
 	f, err := os.Create(inP)
 	must(err)
 	_, err = f.Write(head)
@@ -540,6 +547,10 @@ func c12Huge(r *core.Run) {
 			}
 		}()
 		sf, err := simOpen(inP)
+		if samePath {
+			sf.Close()
+			sf, err = simOpenRW(inP)
+		}
 		must(err)
 		defer sf.Close()
 		aerr = signers.ApplyBinPatch(sf, dest, bytes.NewReader(dump))
@@ -548,10 +559,10 @@ func c12Huge(r *core.Run) {
 	fs.CloseAll()
 	r.Evals++
 	r.Probe("over-4GiB-range")
-	r.Sig(fmt.Sprintf("huge/hole=%d/split=%v/tail=%v", hole-(1<<32), split, len(tail) > 0))
+	r.Sig(fmt.Sprintf("huge/hole=%d/split=%v/tail=%v/same=%v", hole-(1<<32), split, len(tail) > 0, samePath))
 	r.Sample = map[string]any{"huge": true, "hole": hole, "split": split, "npatches": len(ps.Patches)}
 	got, rerr := os.ReadFile(dest)
-	key := fmt.Sprintf("huge/split=%v", split)
+	key := fmt.Sprintf("huge/split=%v/same=%v", split, samePath)
 	if aerr != nil || rerr != nil {
 		r.Failf("C12.apply-failed", key, "over-4-GiB range: apply failed: %v %v", aerr, rerr)
 		return
